@@ -61,7 +61,8 @@ Strings == {"a\"b", "back\\slash", "C:\\temp\\new\\report.txt", "tab\there", "nl
             "\\d+\\.\\d+$", "ends with backslash\\", "/* c */", "// c", "a\\\\b", "DOMAIN\\user", "q\"\\n", "}{", "then", "when true"}
 BadShapes == {"unknown-operator", "arity-0", "arity-1-eq", "arity-1-plus", "arity-1-lt", "set-arity-1", "set-arity-3", "call-arity-0", "missing-name",
               "missing-when", "missing-then", "when-number", "empty-input", "blank-input", "not-json", "two-keys", "obj-not-string",
-              "const-array", "unknown-nested", "arity-1-nested"}
+              "const-array", "unknown-nested", "arity-1-nested", "not-arity-0", "and-arity-0", "plus-arity-0-nested", "not-arity-0-in-then",
+              "call-args-null", "set-null", "when-null-operands"}
 \* numbers are given as decimal text (TLC integers are 32-bit): the translated rule must denote exactly the number the
 \* JSON text denotes (as a float64), as a bare operand, inside {"const": n} and as a call argument
 Numbers == {"16777217", "20240131", "123456789", "0.123456789", "1234567.891", "4294967297", "0.1", "-16777217", "100000000", "33554433",
